@@ -5,6 +5,7 @@ import (
 	"sync"
 
 	"github.com/pion/interceptor"
+	"github.com/pion/rtcp"
 	"github.com/pion/rtp"
 )
 
@@ -416,4 +417,63 @@ func (r *sRec) recordBadS4(st sStats, ssrc uint32, n int, late bool) sStats {
 	}
 	st.Bytes += uint64(n)
 	return st
+}
+
+// ---- S5 -----------------------------------------------------------------------------------------------------------------
+
+type sFanRec interface {
+	Queue(pkts []rtcp.Packet)
+}
+
+type GoodS5fan struct {
+	interceptor.NoOp
+	mu   sync.Mutex
+	recs map[uint32]sFanRec
+}
+
+// every recorder sees every batch.
+func (f *GoodS5fan) BindRTCPWriter(w interceptor.RTCPWriter) interceptor.RTCPWriter {
+	return interceptor.RTCPWriterFunc(func(pkts []rtcp.Packet, a interceptor.Attributes) (int, error) {
+		f.mu.Lock()
+		for _, r := range f.recs {
+			r.Queue(pkts)
+		}
+		f.mu.Unlock()
+		return w.Write(pkts, a)
+	})
+}
+
+type BadS5fan struct {
+	interceptor.NoOp
+	mu   sync.Mutex
+	recs map[uint32]sFanRec
+}
+
+// only recorders whose SSRC is named by the first packet see the batch.
+func (f *BadS5fan) BindRTCPReader(rd interceptor.RTCPReader) interceptor.RTCPReader {
+	return interceptor.RTCPReaderFunc(func(b []byte, a interceptor.Attributes) (int, interceptor.Attributes, error) {
+		n, attr, err := rd.Read(b, a)
+		if err != nil {
+			return 0, nil, err
+		}
+		pkts, perr := rtcp.Unmarshal(b[:n])
+		if perr != nil || len(pkts) == 0 {
+			return n, attr, nil
+		}
+		f.mu.Lock()
+		for ssrc, r := range f.recs {
+			named := false
+			for _, d := range pkts[0].DestinationSSRC() {
+				if d == ssrc {
+					named = true
+				}
+			}
+			if !named {
+				continue
+			}
+			r.Queue(pkts)
+		}
+		f.mu.Unlock()
+		return n, attr, nil
+	})
 }
